@@ -16,7 +16,10 @@
       task is CRITICAL (`Cfg.stopAsksCritical`, "fix: TASK_INTERNAL_ERROR of a non-critical task
       does not stop the run") — the same goroutine then queues env.TryTransition(STOP_ACTIVITY).
       Before the two repairs (`deviceLegacyCfg`): nothing at all unless RUNNING, and the STOP
-      whatever the task's criticality;
+      whatever the task's criticality. The environment is the one of the task's parent role,
+      `envs.environment(t.GetEnvironmentId())` (`Cfg.envByTask`) — not the one the event's
+      `environmentId` label names (the environment the executor launched the task for): the
+      difference shows only among several environments, Model/FailureRoster `hitTagged`;
     * core/workflow/taskrole.go + aggregatorrole.go  = RoleTree.updState / updStatus;
     * core/workflow/parentadapter.go updateState: a NON-BLOCKING send on the channel of
       every subscriber (`notify`). The watcher's channel has a buffer of one value
@@ -97,6 +100,13 @@ structure Cfg where
   reread : Bool     -- after a receive: `if wfState != sm.ERROR && wf.GetState() == sm.ERROR { wfState = sm.ERROR }`
   stopAsksCritical : Bool  -- TASK_INTERNAL_ERROR: `if !t.GetTraits().Critical { return }` before TryTransition(STOP_ACTIVITY)
   roleAlways : Bool        -- TASK_INTERNAL_ERROR: the role is told ERROR outside the test `env.CurrentState() == "RUNNING"`
+  -- TASK_INTERNAL_ERROR: the environment the event is handled in is looked up by the task's CURRENT environment,
+  -- `envs.environment(t.GetEnvironmentId())` (the parent role's), not by the `environmentId` label of the event (the
+  -- environment the executor launched the task FOR: stamped once, never updated; empty / stale for a task that was
+  -- released by that environment and belongs to another one now). Only Model/FailureRoster (`hitTagged`) looks at it:
+  -- inside ONE environment there is nothing to look up. Never false in any version of the code; `false` is the
+  -- refuted alternative (`C03_env_must_be_resolved_by_task`), tied to the source by `C03_internal_env_is_code`.
+  envByTask : Bool := true
   deriving DecidableEq, Repr, Inhabited
 
 /-- The code as it is (tied to the source by `C03_watcher_is_code` and `C03_internal_effect_is_code`). -/
